@@ -421,15 +421,40 @@ class Fn:
             return [t["target"]] if t["target"] is not None else []
         return []
 
+    def _const_switch_target(self, t):
+        """a switch on a compile-time constant (e.g. `cond && false`) has only one live edge"""
+        d = t["discr"]
+        c = const_int(d)
+        if c is None:
+            l = op_local(d)
+            if l is None or (1 <= l <= self.arg_count):
+                return None
+            ds = self.full_defs(l)
+            if len(ds) != 1 or ds[0][0] != "stmt":
+                return None
+            rv = ds[0][3]["rv"]
+            if rv["k"] != "use":
+                return None
+            c = const_int(rv["op"])
+            if c is None:
+                return None
+        for v, tg in t["targets"]:
+            if int(v) == c:
+                return tg
+        return t["otherwise"]
+
     def succs(self, b):
         if self._succ is None:
-            self._succ = []
-            for blk in self.blocks:
+            self._succ = [None] * len(self.blocks)
+            # first pass: plain successors (full_defs needs no CFG)
+            for i, blk in enumerate(self.blocks):
+                t = blk["term"]
                 s = []
-                for x in self.term_succs(blk["term"]):
+                only = self._const_switch_target(t) if t["k"] == "switch" else None
+                for x in ([only] if only is not None else self.term_succs(t)):
                     if x not in s:
                         s.append(x)
-                self._succ.append(s)
+                self._succ[i] = s
         return self._succ[b]
 
     def preds(self, b):
